@@ -181,6 +181,13 @@ fn passes_inner(prop: &str, tier: Tier) -> Vec<Bounds> {
                 // determinism does not depend on when a ghost goes away: C19 keeps the plain ghost only
                 b.ghosts_late = prop != "C19";
             }
+            if prop == "C19" {
+                // many additions in one step (a grouping that only starts at five data), two shapes of
+                // one size under different type names; no cancelled additions in this pass
+                let mut b = if q { narrow(vec![5], vec![0], vec![S(4, 4), S(4, 1), S(1, 1), S(2, 2)]) } else { narrow(vec![6, 1], vec![0, 1], vec![S(4, 4), S(4, 1), S(1, 1), S(2, 2)]) };
+                b.with_ranks = true;
+                v.push(b);
+            }
             if prop == "C13" {
                 // a size that is not a multiple of the alignment (only an override can record it)
                 // followed in memory by less aligned data; no cancelled additions in this pass
